@@ -1,9 +1,12 @@
 //! C30: for each statement, the schema the result reports, the schema of every returned batch,
 //! the schema of `ctx.physical_plan(sql)`, and the row count.
 //! case: {"tables": [sqlutil table specs], "queries": [sql, ...]}
+//! Besides sqlutil's column types a memory table may have columns of type i16, i8, f32: they are built as
+//! i32 / i32 / f64 by sqlutil and cast to Int16 / Int8 / Float32 here (sqlutil.rs is shared and unchanged).
 //! out:  {"results": [ {"ok": {"result": [[name,type]..], "batches": [[[name,type]..]..], "rows": n,
 //!                             "physical": [[name,type]..] | {"err": ..}}} | {"err": msg} | {"panic": msg} ]}
-use arrow::datatypes::Schema;
+use arrow::datatypes::{DataType, Field, Schema};
+use arrow::record_batch::RecordBatch;
 use qe_verif_harness::sqlutil;
 use serde_json::{json, Value};
 
@@ -20,10 +23,60 @@ fn schema_json(s: &Schema) -> Value {
     )
 }
 
+fn small_type(t: &str) -> Option<(&'static str, DataType)> {
+    match t {
+        "i16" => Some(("i32", DataType::Int16)),
+        "i8" => Some(("i32", DataType::Int8)),
+        "f32" => Some(("f64", DataType::Float32)),
+        _ => None,
+    }
+}
+
+fn register(ctx: &mut query_engine::ExecutionContext, spec: &Value, dir: &std::path::Path) {
+    let cols = spec["cols"].as_array().unwrap();
+    if !cols.iter().any(|c| small_type(c[1].as_str().unwrap()).is_some()) {
+        return sqlutil::register(ctx, spec, dir);
+    }
+    let mut base = spec.clone();
+    let mut targets = Vec::new();
+    for (j, c) in cols.iter().enumerate() {
+        let ty = c[1].as_str().unwrap();
+        match small_type(ty) {
+            Some((b, dt)) => {
+                base["cols"][j][1] = json!(b);
+                targets.push(dt);
+            }
+            None => targets.push(sqlutil::dtype(ty)),
+        }
+    }
+    let fields: Vec<Field> = cols
+        .iter()
+        .zip(targets.iter())
+        .map(|(c, dt)| Field::new(c[0].as_str().unwrap(), dt.clone(), true))
+        .collect();
+    let schema = std::sync::Arc::new(Schema::new(fields));
+    let batches: Vec<RecordBatch> = sqlutil::batches_of(&base)
+        .into_iter()
+        .map(|b| {
+            let arrays = b
+                .columns()
+                .iter()
+                .zip(targets.iter())
+                .map(|(a, dt)| arrow::compute::cast(a, dt).unwrap())
+                .collect();
+            RecordBatch::try_new(schema.clone(), arrays).unwrap()
+        })
+        .collect();
+    ctx.register_table(spec["name"].as_str().unwrap(), schema, batches);
+}
+
 fn case(v: &Value) -> Value {
     let rt = qe_verif_harness::runtime();
     let dir = tempfile::tempdir().unwrap();
-    let ctx = sqlutil::make_ctx(&v["tables"], dir.path());
+    let mut ctx = query_engine::ExecutionContext::new();
+    for t in v["tables"].as_array().unwrap() {
+        register(&mut ctx, t, dir.path());
+    }
     let mut outs = Vec::new();
     for q in v["queries"].as_array().unwrap() {
         let sql = q.as_str().unwrap();
